@@ -78,8 +78,10 @@ LegalFrames(P) ==
   /\ P.nStore >= 0
 InFrame(P, fr, t) == IF TimeMode(P) /\ Bounded(fr) THEN t >= fr[1] /\ t < fr[2] ELSE t >= fr[1]
 
-(* ------------- histograms: [TOF bin][segment][index in segment] --------- *)
-\* the output is organised like the implementation's: one block per (TOF bin, segment)
+(* ---------------- histograms: sparse functions bin -> count -------------- *)
+\* A histogram is a function whose domain is the set of bins with a non-zero count; a bin is
+\* << TOF bin, segment, index in the segment >> (the output is organised like the implementation's:
+\* one block per (TOF bin, segment)).
 NTang(c) == c.maxTang - c.minTang + 1
 NViewsOf(c) == NV(c) \div c.mash
 SegSize(c, seg) == NumAx(c, seg) * NViewsOf(c) * NTang(c)
@@ -91,7 +93,13 @@ JOf(c, b) == (b.ax * NViewsOf(c) + b.view) * NTang(c) + (b.tang - c.minTang) + 1
 Res(ok, tof, seg, j) == [ok |-> ok, tof |-> tof, seg |-> seg, j |-> j]
 NoRes == Res(FALSE, 0, 0, 0)
 Resolve(c, b) == IF Accepted(c, b) THEN Res(TRUE, b.tof, b.seg, JOf(c, b)) ELSE NoRes
-ZeroHist(c) == [k \in TofBins(c) |-> [sg \in Segs(c) |-> [j \in 1..SegSize(c, sg) |-> 0]]]
+KeyOf(r) == << r.tof, r.seg, r.j >>
+ZeroHist == [x \in {} |-> 0]
+\* add inc to the count of bin key
+Bump(h, key, inc) ==
+  IF key \in DOMAIN h
+  THEN (IF h[key] + inc = 0 THEN [x \in (DOMAIN h) \ {key} |-> h[x]] ELSE [h EXCEPT ![key] = @ + inc])
+  ELSE [x \in (DOMAIN h) \cup {key} |-> IF x = key THEN inc ELSE h[x]]
 
 (* ------------------------- ABSTRACT histogram --------------------------- *)
 \* s: stream, rs: resolved events (same length; NoRes at time marks)
@@ -107,11 +115,11 @@ StoredIdx(P, s, rs, f) == IF TimeMode(P) THEN FrameIdx(P, s, rs, Frames(P)[f]) E
 \* "adds exactly one count (minus one for delayed events when they are subtracted) to the bin that the
 \*  data geometry assigns to the event's detector pair and TOF index, and nothing else"
 \* I: the stored events
+BinSum(P, s, rs, I, key) == SumInc(P, s, { i \in I : KeyOf(rs[i]) = key })
 HistOfIdx(P, s, rs, I) ==
-  [k \in TofBins(P.c) |-> [sg \in Segs(P.c) |-> [j \in 1..SegSize(P.c, sg) |->
-      SumInc(P, s, { i \in I : rs[i].tof = k /\ rs[i].seg = sg /\ rs[i].j = j })]]]
+  [key \in { k \in { KeyOf(rs[i]) : i \in I } : BinSum(P, s, rs, I, k) # 0 } |-> BinSum(P, s, rs, I, key)]
 Hist(P, s, rs, f) == HistOfIdx(P, s, rs, StoredIdx(P, s, rs, f))
-HistAt(P, s, rs, f, k, sg, j) == SumInc(P, s, { i \in StoredIdx(P, s, rs, f) : rs[i].tof = k /\ rs[i].seg = sg /\ rs[i].j = j })
+At(h, key) == IF key \in DOMAIN h THEN h[key] ELSE 0
 
 (* ------------------------------ batches --------------------------------- *)
 \* passes over the data: TOF ranges (outer) x segment ranges (inner), each of the size held in memory
@@ -135,8 +143,8 @@ PlanOf(P) == [batches |-> [i \in 1..NumBatches(P) |-> BatchAt(P, i)], nbt |-> Nu
 
 (* ------------------- the machine (process_data) ------------------------- *)
 \* m.pc: newframe | batch | skip | savepos | fs | rewind1 | rewind2 | read | save | endframe
-M0(c) == [pc |-> "newframe", f |-> 1, bi |-> 1, pos |-> 0, ct |-> 0, fct |-> 0, more |-> 0, empty |-> FALSE,
-          spos |-> 0, sid |-> 0, acc |-> ZeroHist(c), out |-> ZeroHist(c)]
+M0 == [pc |-> "newframe", f |-> 1, bi |-> 1, pos |-> 0, ct |-> 0, fct |-> 0, more |-> 0, empty |-> FALSE,
+       spos |-> 0, sid |-> 0, acc |-> ZeroHist, out |-> ZeroHist]
 
 Ev(e, a, b, c, d) == << e, a, b, c, d >>
 \* the next call / hook event of a correct execution (T = PlanOf(P), L = length of the stream)
@@ -172,7 +180,7 @@ ReadMain(P, T, m, rec, rs) ==
      ELSE LET inc == IncOf(P, rec) IN
           IF ~rs.ok \/ inc = 0 THEN m1
           ELSE [m1 EXCEPT !.more = IF TimeMode(P) THEN @ ELSE @ - inc,       \* counted whether or not its segment is in memory
-                          !.acc = IF InBatch(bt, rs.seg, rs.tof) THEN [@ EXCEPT ![rs.tof][rs.seg][rs.j] = @ + inc] ELSE @]
+                          !.acc = IF InBatch(bt, rs.seg, rs.tof) THEN Bump(@, KeyOf(rs), inc) ELSE @]
 
 \* effect of event ev = Expected(T, L, m); rec/rs: the record served by an "R" with index > 0; id: the
 \* handle returned by save_get_position
@@ -181,9 +189,9 @@ Apply(P, T, m, ev, rec, rs, id) ==
       bt == T.batches[m.bi]
   IN CASE ev[1] = "NewFrame" ->
             [m EXCEPT !.pc = "batch", !.f = ev[2], !.bi = 1,
-                      !.out = IF P.fresh \/ ev[2] = 1 THEN ZeroHist(P.c) ELSE @]
+                      !.out = IF P.fresh \/ ev[2] = 1 THEN ZeroHist ELSE @]
        [] ev[1] = "Batch" ->
-            [m EXCEPT !.acc = ZeroHist(P.c), !.more = IF TimeMode(P) THEN 1 ELSE P.nStore,
+            [m EXCEPT !.acc = ZeroHist, !.more = IF TimeMode(P) THEN 1 ELSE P.nStore,
                       !.pc = IF m.bi = 1 THEN "skip" ELSE "rewind1"]
        [] ev[1] = "R" /\ m.pc = "skip" ->
             IF ev[2] = 0 THEN [m EXCEPT !.pc = "savepos"]
@@ -199,7 +207,8 @@ Apply(P, T, m, ev, rec, rs, id) ==
             IF ev[2] = 0 THEN [m EXCEPT !.pc = "save"] ELSE ReadMain(P, T, m, rec, rs)
        [] ev[1] = "Save" ->
             \* the segments held in memory replace those of the output; everything else is untouched
-            [m EXCEPT !.out = [k \in TofBins(P.c) |-> [sg \in Segs(P.c) |-> IF InBatch(bt, sg, k) THEN m.acc[k][sg] ELSE m.out[k][sg]]],
+            [m EXCEPT !.out = [x \in { y \in DOMAIN m.out : ~InBatch(bt, y[2], y[1]) } \cup DOMAIN m.acc |->
+                              IF x \in DOMAIN m.acc THEN m.acc[x] ELSE m.out[x]],
                       !.bi = @ + 1,
                       !.pc = IF m.bi = T.nbt THEN "endframe" ELSE "batch"]
        [] OTHER -> m
@@ -210,18 +219,19 @@ IsSaved(T, m, k, sg) == \E i \in 1..(m.bi - 1) : InBatch(T.batches[i], sg, k)
 \* After k passes the output holds the abstract histogram of the frame in the segments / TOF bins saved so
 \* far; the rest is what it was when the frame started (`prev'): zero, or the previous frame's histogram.
 \* h: the abstract histogram Hist(P, s, rs, m.f) of the frame
-OutCorrect(P, T, h, m, prev) ==
-  \A k \in TofBins(P.c) : \A sg \in Segs(P.c) : m.out[k][sg] = IF IsSaved(T, m, k, sg) THEN h[k][sg] ELSE prev[k][sg]
+OutCorrect(T, h, m, prev) ==
+  m.out = [x \in { y \in DOMAIN h : IsSaved(T, m, y[1], y[2]) } \cup { y \in DOMAIN prev : ~IsSaved(T, m, y[1], y[2]) } |->
+             IF IsSaved(T, m, x[1], x[2]) THEN h[x] ELSE prev[x]]
 
 \* "the frames of a partition of a time interval add up to the histogram of the whole interval"
 Contiguous(frs) == \A i \in 2..Len(frs) : frs[i][1] = frs[i - 1][2]
 WholeOf(P) == [P EXCEPT !.frames = << << P.frames[1][1], P.frames[Len(P.frames)][2] >> >>]
-RECURSIVE SumFrames(_, _, _, _, _, _, _)
-SumFrames(P, s, rs, f, k, sg, j) == IF f = 0 THEN 0 ELSE HistAt(P, s, rs, f, k, sg, j) + SumFrames(P, s, rs, f - 1, k, sg, j)
+RECURSIVE SumFrames(_, _, _, _, _)
+SumFrames(P, s, rs, f, key) == IF f = 0 THEN 0 ELSE At(Hist(P, s, rs, f), key) + SumFrames(P, s, rs, f - 1, key)
 PartitionAddsUp(P, s, rs) ==
   (TimeMode(P) /\ P.frames # <<>> /\ Contiguous(P.frames)) =>
-     \A k \in TofBins(P.c) : \A sg \in Segs(P.c) : \A j \in 1..SegSize(P.c, sg) :
-        HistAt(WholeOf(P), s, rs, 1, k, sg, j) = SumFrames(P, s, rs, Len(P.frames), k, sg, j)
+     \A key \in { KeyOf(rs[i]) : i \in Kept(P, s, rs) } :
+        At(Hist(WholeOf(P), s, rs, 1), key) = SumFrames(P, s, rs, Len(P.frames), key)
 
 (* -------------------- likelihood gradients (clause 2) ------------------- *)
 \* Both gradients are recorded in fixed point, round(v * 2^k) with k = 12.  They are computed by different
